@@ -6,7 +6,16 @@ MODULE = "GoNfsd.Props.C12"
 
 
 def run(ctx):
-    ok_go, ok_drv = seqlib.build_and_prove(ctx, MODULE)
+    ok_go, ok_drv = seqlib.build_and_prove(ctx, MODULE, extra_parts=["skeleton"])
+    if any(b.kind == "proof" for b in ctx.breaks):
+        import C03
+        for name, calls in C03.failing_slot_functions(ctx)[:3]:
+            ctx.add_violation("slot-before-lock:" + name,
+                              "fstxn.%s fetches the cached inode without holding the inode's lock: calls in source order: %s" % (name, calls),
+                              {"input": {"function": "fstxn." + name, "calls_in_source_order": calls},
+                               "how": "regenerated table Gen/Skeleton.slotUses checked by Model/Skeleton.slotCheck (theorem the_inode_written_back_is_the_locked_one): a request that waits for an "
+                                      "inode while more than 100 other inodes are used writes back an orphaned copy; a file truncated meanwhile regains its size and block pointers and shows the "
+                                      "bytes of the next owner of those blocks"})
     if ok_go:
         args = ["-seqs", "40", "-ops", "500", "-big"] if ctx.tier == "thorough" else ["-seqs", "8", "-ops", "400"]
         lines, tr = seqlib.run_seq(ctx, args)
